@@ -92,6 +92,9 @@ def gen_cases(ctx):
         for mode in ("step", "evolve"):
             for order in (1, 2):
                 mk(mode, n, [], 0.1, order=order, k=2)
+                if mode == "evolve":                 # the empty Hamiltonian is an error for every step count, 0 included
+                    for k in (0, 1, 5):
+                        mk(mode, n, [], rng.choice([0.1, 0.0]), order=order, k=k)
                 bad = rand_string(rng, n, allow_empty=False); bad["ops"][0][0] = n + rng.randrange(0, 4); bad["coef"] = [float2bits(rng.choice([1.0, 0.0])), float2bits(0.0)]
                 good = dict(rand_string(rng, n), coef=[float2bits(0.4), float2bits(0.0)])
                 mk(mode, n, [good, bad], rng.choice([0.1, 0.0, -0.0]), order=order, k=rng.choice([1, 2]))
